@@ -309,6 +309,11 @@ func encHttpConv(p sx.Sx) (cb, sb []byte) {
 	for _, ex := range p.List {
 		req, resp := ex.List[1], ex.List[2]
 		cb = append(cb, encHttpMessage(fmt.Sprintf("%s %s HTTP/1.%d", req.List[1].Str(), req.List[2].Str(), req.List[3].Int()), req.List[4], req.List[5].Atom, req.List[6].Bytes())...)
+		if len(ex.List) > 3 { // interim responses (100 Continue, 102, 103 Early Hints) in front of the final one
+			for _, st := range ex.List[3].List[1:] {
+				sb = append(sb, []byte(fmt.Sprintf("HTTP/1.1 %d Interim\r\n\r\n", st.Int()))...)
+			}
+		}
 		sb = append(sb, encHttpMessage(fmt.Sprintf("HTTP/1.%d %d %s", resp.List[3].Int(), resp.List[1].Int(), resp.List[2].Str()), resp.List[4], resp.List[5].Atom, resp.List[6].Bytes())...)
 	}
 	return
@@ -423,9 +428,38 @@ func genHttpConv(r *Rand, tier string, emit func(sx.Sx)) {
 				req = sx.L(sx.A("req"), sx.S("HEAD"), sx.S(targets[r.Intn(len(targets))]), sx.N(minor), hs, sx.A("none"), sx.B(nil))
 				resp = sx.L(sx.A("resp"), sx.N(st), sx.S(reasons[st]), sx.N(minor), rh, sx.A("none"), sx.B(nil))
 			}
+			if minor == 1 && r.Chance(8) {
+				// interim responses in front of the final one: the exchange is the request and its final response
+				pre := [][]int{{100}, {103}, {102, 102}, {100, 103}, {103, 103, 100}}[r.Intn(5)]
+				ps := []sx.Sx{sx.A("pre")}
+				for _, p := range pre {
+					ps = append(ps, sx.N(p))
+				}
+				exs = append(exs, sx.L(sx.A("ex"), req, resp, sx.L(ps...)))
+				continue
+			}
 			exs = append(exs, sx.L(sx.A("ex"), req, resp))
 		}
 		emit(sx.L(exs...))
+	}
+	// an upgrade answered with 101 is an exchange like any other (WebSocket, TLS): reported once, nothing left waiting;
+	// Expect: 100-continue answered with 100 and then the final status
+	for _, up := range []string{"websocket", "TLS/1.0", "WebSocket"} {
+		hs := sx.L(sx.L(sx.S("Host"), sx.S("host.example")), sx.L(sx.S("Connection"), sx.S("Upgrade")), sx.L(sx.S("Upgrade"), sx.S(up)))
+		req := sx.L(sx.A("req"), sx.S("GET"), sx.S("/chat"), sx.N(1), hs, sx.A("none"), sx.B(nil))
+		resp := sx.L(sx.A("resp"), sx.N(101), sx.S("Switching Protocols"), sx.N(1), sx.L(sx.L(sx.S("Connection"), sx.S("Upgrade")), sx.L(sx.S("Upgrade"), sx.S(up))), sx.A("none"), sx.B(nil))
+		first := sx.L(sx.A("ex"), sx.L(sx.A("req"), sx.S("GET"), sx.S("/index.html"), sx.N(1), sx.L(sx.L(sx.S("Host"), sx.S("host.example"))), sx.A("none"), sx.B(nil)),
+			sx.L(sx.A("resp"), sx.N(200), sx.S("OK"), sx.N(1), sx.L(), sx.A("cl"), sx.B([]byte("ok"))))
+		emit(sx.L(sx.L(sx.A("ex"), req, resp)))
+		emit(sx.L(first, sx.L(sx.A("ex"), req, resp)))
+	}
+	{
+		hs := sx.L(sx.L(sx.S("Host"), sx.S("host.example")), sx.L(sx.S("Expect"), sx.S("100-continue")))
+		req := sx.L(sx.A("req"), sx.S("POST"), sx.S("/up"), sx.N(1), hs, sx.A("cl"), sx.B([]byte("payload")))
+		resp := sx.L(sx.A("resp"), sx.N(201), sx.S("Created"), sx.N(1), sx.L(), sx.A("cl"), sx.B([]byte("ok")))
+		next := sx.L(sx.A("ex"), sx.L(sx.A("req"), sx.S("GET"), sx.S("/after"), sx.N(1), sx.L(sx.L(sx.S("Host"), sx.S("host.example"))), sx.A("none"), sx.B(nil)),
+			sx.L(sx.A("resp"), sx.N(404), sx.S("Not Found"), sx.N(1), sx.L(), sx.A("cl"), sx.B([]byte("no"))))
+		emit(sx.L(sx.L(sx.A("ex"), req, resp, sx.L(sx.A("pre"), sx.N(100))), next))
 	}
 }
 
